@@ -101,7 +101,7 @@ pub fn child(dir: &Path) -> ! {
 }
 
 fn run_child(dir: &Path, env: &[(&str, String)]) -> Option<i32> {
-    let exe = std::env::current_exe().unwrap();
+    let exe = crate::self_exe();
     let mut c = Command::new(exe);
     c.arg("C10-child").arg(dir);
     for k in ["VERIF_CRASH_AT", "VERIF_CRASH_LOG", "VERIF_FREEZER_CRASH_AT", "VERIF_FREEZER_CRASH_LOG"] { c.env_remove(k); }
